@@ -56,6 +56,23 @@ Theorem C11_init_order_perm : forall l l' : list stmt,
   Permutation l l' -> NoDup (dvars l) -> init_order tgt l = init_order tgt l'.
 Proof. exact (init_order_perm tgt). Qed.
 
+(* ... and acceptance does not depend on the numbering of the variables either (permuting the SOURCE
+   renumbers the globals): two dependency tables that are the same graph up to an injective renumbering pi
+   are both accepted or both rejected.  What is NOT invariant is the order of the result: the DFS visits
+   keys and dependencies in increasing variable id, i.e. independent definitions come out in source order. *)
+Theorem C11_order_accept_iso : forall (A B : Type) (key_of : A -> N) (key_of' : B -> N)
+    (t : table A) (t' : table B) (pi : N -> N),
+  (forall x y, pi x = pi y -> x = y) ->
+  (forall k deps a, tbl_get t k = Some (deps, a) -> key_of a = k) ->
+  (forall k deps a, tbl_get t' k = Some (deps, a) -> key_of' a = k) ->
+  (forall k deps a, tbl_get t k = Some (deps, a) ->
+     exists deps' a', tbl_get t' (pi k) = Some (deps', a') /\
+                      forall d, In d deps' <-> exists d0, In d0 deps /\ d = pi d0) ->
+  (forall k', is_key t' k' -> exists k, is_key t k /\ k' = pi k) ->
+  NoDup (map fst t) -> NoDup (map fst t') ->
+  ((exists l, order t = OOk l) <-> (exists l, order t' = OOk l)).
+Proof. exact @order_accept_iso. Qed.
+
 (* types before values: after the types-first sort no value statement precedes a blob/enum *)
 Theorem C11_types_first : forall ss l1 s l2,
   types_first ss = l1 ++ s :: l2 -> is_type_stmt s = true -> forall x, In x l1 -> is_type_stmt x = true.
@@ -93,4 +110,5 @@ Print Assumptions C11_topo_sound.
 Print Assumptions C11_topo_complete.
 Print Assumptions C11_order_accept_perm.
 Print Assumptions C11_init_order_perm.
+Print Assumptions C11_order_accept_iso.
 Print Assumptions C11_types_first.
